@@ -220,9 +220,9 @@ var writerRules = map[string][]writerRule{
 			Writers: map[string]bool{"SetFile": true, "RemoveFile": true, "SetProof": true, "RemoveProof": true, "RemoveProofWithBuiltKey": true, "AddProver": true, "RemoveProver": true, "RemoveProverWithKey": true, "Save": true},
 			Recv:    map[string]bool{"Keeper": true, "msgServer": true, "ProofLoader": true, "UnifiedFile": true, "FileProof": true},
 			Allow: map[string]string{
-				"x/storage.InitGenesis":             "genesis import (C19); not a transaction path",
-				"x/storage/types.(*FileProof).Save": "wrapper of SetProof without callers in the module",
-				"x/storage/types.(*UnifiedFile).Save": "wrapper of SetFile; its only caller RemoveProverWithKey is under contract (it is inlined there)",
+				"x/storage.InitGenesis":                       "genesis import (C19); not a transaction path",
+				"x/storage/types.(*FileProof).Save":           "wrapper of SetProof without callers in the module",
+				"x/storage/types.(*UnifiedFile).Save":         "wrapper of SetFile; its only caller RemoveProverWithKey is under contract (it is inlined there)",
 				"x/storage/types.(*UnifiedFile).RemoveProver": "wrapper of RemoveProverWithKey with the key built by MakeProofKey; inlined at its call sites (DoReport)",
 			},
 		},
